@@ -169,6 +169,9 @@ func (p *prover) schemaFacts(s *factSet, t term) {
 	if v == nil || v == ssa.Value(symNF) || v == ssa.Value(symMF) {
 		return
 	}
+	if _, isConst := v.(*ssa.Const); isConst {
+		return // MissingFieldLocator (-1) is a constant of the locator type
+	}
 	if !t.isLn {
 		if typeName(v.Type()) == "base.LogFieldLocator" {
 			s.le(zeroT(), t, 0)
